@@ -1,4 +1,7 @@
-import hashlib, hmac, sys
+"""Writes lean/Percival/KAT/*.lean for C01 from the published vectors typed below (run once; the generated files are
+committed).  Python's hashlib/hmac only cross-check the typing of the expected values."""
+import hashlib, hmac, os, sys
+KATDIR = os.path.join(os.path.dirname(os.path.dirname(os.path.dirname(os.path.abspath(__file__)))), "lean", "Percival", "KAT")
 # published vectors (typed from the standards); python only cross-checks my typing
 def chk(name, got, exp):
     assert got == exp, (name, got, exp)
@@ -68,11 +71,11 @@ def unhexL : List Char → Bytes
 def unhex (s : String) : Bytes := unhexL s.toList
 end Percival.KAT
 '''
-open("/work/c01/lean/Percival/KAT/Common.lean","w").write(COMMON)
+open(os.path.join(KATDIR, "Common.lean"),"w").write(COMMON)
 def ex(lhs, rhs, doc):
     return '/-- %s -/\nexample : %s = unhex "%s" := by decide +kernel\n\n' % (doc, lhs, rhs)
 def wr(name, imports, body):
-    open("/work/c01/lean/Percival/KAT/%s.lean"%name,"w").write("import Percival.KAT.Common\n"+imports+HDR+"namespace Percival.KAT.%s\nopen Percival.Spec Percival.KAT\nset_option maxRecDepth 100000\n\n"%name+body+"end Percival.KAT.%s\n"%name)
+    open(os.path.join(KATDIR, "%s.lean"%name),"w").write("import Percival.KAT.Common\n"+imports+HDR+"namespace Percival.KAT.%s\nopen Percival.Spec Percival.KAT\nset_option maxRecDepth 100000\n\n"%name+body+"end Percival.KAT.%s\n"%name)
 b=""
 for m,d in sha256: b+=ex('Sha256.hash (ascii "%s")'%m, d, "FIPS 180-4 / NIST example, %d bytes"%len(m))
 wr("Sha256","",b)
